@@ -61,6 +61,18 @@ def specIndexFrom (off : Nat) : List Rec → List IdxRow
 
 def specIndex (rs : List Rec) : List IdxRow := specIndexFrom 0 rs
 
+/-- records separated by blank lines: each record is followed by `k` empty lines (accepted by
+`samtools faidx` and by the library's sequential reader) -/
+def fileOfB (rs : List (Rec × Nat)) : Bytes := (rs.map (fun p => recBytes p.1 ++ List.replicate p.2 10)).flatten
+
+/-- the index rows of a blank-line-separated file: the empty lines only move the later offsets -/
+def specIndexFromB (off : Nat) : List (Rec × Nat) → List IdxRow
+  | [] => []
+  | (r, k) :: rs =>
+    let start := off + r.header.length + 2
+    ⟨r.header, r.seq.length, start, min r.width r.seq.length, min r.width r.seq.length + 1⟩ ::
+      specIndexFromB (start + (wrapBytes r.width r.seq).length + k) rs
+
 /-! ### Model of the code -/
 
 /-- split at `'\n'`; the piece after the last newline is dropped when empty -/
